@@ -12,7 +12,7 @@ META = {
 
 def run(ctx):
     return mworld.run_family(
-        ctx, "C14", scenarios=[5, 6, 9], impls=['overlay-basic', 'overlay-mutable', 'overlay-empty', 'tagsoverlay'],
+        ctx, "C14", scenarios=[5, 6, 9], impls=['overlay-basic', 'overlay-mutable', 'overlay-empty', 'overlay-compact', 'tagsoverlay'],
         max_paths={6: 100000, 9: 100000},
         impl_caps={6: {'overlay-mutable': 500, 'overlay-empty': 500, 'tagsoverlay': 100000}, 9: {'overlay-mutable': 300, 'overlay-empty': 300}},
         sections=['snap:changed', 'lookup', 'search', 'each', 'problems'],
